@@ -48,7 +48,6 @@ pub struct Node {
     pub link: PathKey,         // link text (Symlink only)
     pub perm: u32,             // st_mode & 0o7777 of the entry itself
     pub rdev: u64,             // st_rdev (device number of a device node)
-    pub dev: u64,              // st_dev (device holding the entry)
     pub size: u64,             // st_size as lstat reports it
 }
 
